@@ -24,13 +24,13 @@ def e1 : Ast :=
     nd .IN [pr .SMALLPR [1] (nd .NT_TUPLE [lit 1, enum2]), nd .SET_MINUS [enum12, enum2]]]
 
 theorem enum12_frag (env : Env) (G : TCtx) (lvl : Nat) (Γ : TCtx) : Frag env G lvl Γ enum12 (.ty (.coll Z)) :=
-  .enum _ _ _ _ (by simp) (by
+  Frag.enum _ _ _ _ (by simp) (by
     intro k hk
     simp only [List.mem_cons, List.not_mem_nil, or_false] at hk
     rcases hk with rfl | rfl <;> exact .lit ..)
 
 theorem enum2_frag (env : Env) (G : TCtx) (lvl : Nat) (Γ : TCtx) : Frag env G lvl Γ enum2 (.ty (.coll Z)) :=
-  .enum _ _ _ _ (by simp) (by
+  Frag.enum _ _ _ _ (by simp) (by
     intro k hk
     simp only [List.mem_cons, List.not_mem_nil, or_false] at hk
     subst hk; exact .lit ..)
@@ -40,9 +40,9 @@ theorem e1_frag (env : Env) : Frag env [] 1 [] e1 .logic := by
   · refine .eq _ _ _ (Or.inl rfl) (.card _ _ _ (.pow _ _ _ (enum12_frag ..) ?_)) (.lit ..)
     intro fuel ρ xs h
     exact Nat.le_trans (denote_enum_length _ _ _ _ _ _ _ _ h) (by decide)
-  · refine .mem (τ := Z) _ _ _ (Or.inl rfl) (by decide) ?_ ?_
+  · refine Frag.mem (τ := Z) _ _ _ (Or.inl rfl) (by decide) ?_ ?_
     · refine .smallpr (ts := [Z, .coll Z]) [1] _ _ ?_ rfl
-      refine .tuple _ _ _ [lit 1, enum2] [Z, .coll Z] (by decide) rfl ?_
+      refine Frag.tuple _ _ _ [lit 1, enum2] [Z, .coll Z] (by decide) rfl ?_
       intro p hp
       simp only [List.zip_cons_cons, List.zip_nil_right, List.mem_cons, List.not_mem_nil, or_false] at hp
       rcases hp with rfl | rfl
@@ -89,7 +89,7 @@ theorem e2_frag : Frag envS GS 2 [] e2 .logic := by
       (x1_frag 2 (by decide) [])
   · refine .eq _ _ _ (Or.inl rfl) ?_ (d1_frag 2 (by decide) [])
     refine .setOp _ _ _ (Or.inr (Or.inl rfl)) ?_ (d1_frag 2 (by decide) [])
-    refine .decart _ _ _ [glob "X1", glob "X1"] [X, X] (by decide) rfl ?_
+    refine Frag.decart _ _ _ [glob "X1", glob "X1"] [X, X] (by decide) rfl ?_
     intro p hp
     simp only [List.zip_cons_cons, List.zip_nil_right, List.mem_cons, List.not_mem_nil, or_false] at hp
     rcases hp with rfl | rfl <;> exact x1_frag 2 (by decide) []
@@ -108,30 +108,130 @@ def Γxy : TCtx := [("y", X), ("x", X)]
 
 theorem pairIn_frag (a b : String) (ha : lookup a Γxy = some X) (hb : lookup b Γxy = some X) :
     Frag envS GS 3 Γxy (pairIn a b) .logic := by
-  refine .mem (τ := .tuple [X, X]) _ _ _ (Or.inl rfl) (by decide) ?_ (d1_frag 3 (by decide) _)
-  refine .tuple _ _ _ [loc a, loc b] [X, X] (by simp) rfl ?_
+  refine Frag.mem (τ := .tuple [X, X]) _ _ _ (Or.inl rfl) (by decide) ?_ (d1_frag 3 (by decide) _)
+  refine Frag.tuple _ _ _ [loc a, loc b] [X, X] (by simp) rfl ?_
   intro p hp
   simp only [List.zip_cons_cons, List.zip_nil_right, List.mem_cons, List.not_mem_nil, or_false] at hp
   rcases hp with rfl | rfl
-  · exact .loc _ a 0 0 (by decide) ha
-  · exact .loc _ b 0 0 (by decide) hb
+  · exact .loc _ a 0 0 (by decide) ha rfl
+  · exact .loc _ b 0 0 (by decide) hb rfl
 
 theorem e3_frag : Frag envS GS 3 [] e3 .logic := by
   refine .conn _ _ _ (Or.inl rfl) ?_ ?_
-  · refine .quant (τ := X) _ _ _ "x" 0 0 (by decide) (Or.inl rfl) rfl rfl (x1_frag 3 (by decide) _) ?_
-    refine .quant (τ := X) _ _ _ "y" 0 0 (by decide) (Or.inr rfl) rfl rfl (x1_frag 3 (by decide) _) ?_
+  · refine .quant (τ := X) _ _ _ "x" 0 0 (by decide) (Or.inl rfl) rfl rfl (by simp) (x1_frag 3 (by decide) _) ?_
+    refine .quant (τ := X) _ _ _ "y" 0 0 (by decide) (Or.inr rfl) rfl rfl (by simp) (x1_frag 3 (by decide) _) ?_
     exact .conn _ _ _ (Or.inr (Or.inl rfl)) (pairIn_frag "x" "y" rfl rfl) (pairIn_frag "y" "x" rfl rfl)
   · refine .eq (τ := .coll X) _ _ _ (Or.inl rfl) ?_ (.bigpr (ts := [X, X]) [1] _ _ (d1_frag 3 (by decide) _) rfl)
-    refine .decl (τ := X) _ _ _ "x" 0 0 (by decide) rfl rfl (x1_frag 3 (by decide) _) ?_
-    exact .quant (τ := X) _ _ _ "y" 0 0 (by decide) (Or.inr rfl) rfl rfl (x1_frag 3 (by decide) _)
+    refine .decl (τ := X) _ _ _ "x" 0 0 (by decide) rfl rfl (by simp) (x1_frag 3 (by decide) _) ?_
+    exact .quant (τ := X) _ _ _ "y" 0 0 (by decide) (Or.inr rfl) rfl rfl (by simp) (x1_frag 3 (by decide) _)
       (pairIn_frag "x" "y" rfl rfl)
 
 /-- `D{x∈X1 | ∃y∈X1 (x,y)∈D1}` -/
 def e4 : Ast := nd .NT_DECLARATIVE_EXPR [loc "x", glob "X1", nd .EXISTS [loc "y", glob "X1", pairIn "x" "y"]]
 
 theorem e4_frag : Frag envS GS 3 [] e4 (.ty (.coll X)) := by
-  refine .decl (τ := X) _ _ _ "x" 0 0 (by decide) rfl rfl (x1_frag 3 (by decide) _) ?_
-  exact .quant (τ := X) _ _ _ "y" 0 0 (by decide) (Or.inr rfl) rfl rfl (x1_frag 3 (by decide) _)
+  refine .decl (τ := X) _ _ _ "x" 0 0 (by decide) rfl rfl (by simp) (x1_frag 3 (by decide) _) ?_
+  exact .quant (τ := X) _ _ _ "y" 0 0 (by decide) (Or.inr rfl) rfl rfl (by simp) (x1_frag 3 (by decide) _)
     (pairIn_frag "x" "y" rfl rfl)
+
+/-! ### stage 4: `R{s:={1} | card(s)<3 | s ∪ D{y∈{1,2,3,4} | ∃x∈s y=x+1}} = {1,2,3}`,
+`R{s:={1} | s ∪ D{…}} = {1,2,3,4}`, `I{(x,y) | x:∈{1,2,3}; y:=x*x; y>1} = {(2,4),(3,9)}` -/
+
+def enum123 : Ast := nd .NT_ENUMERATION [lit 1, lit 2, lit 3]
+def set1234 : Ast := nd .NT_ENUMERATION [lit 1, lit 2, lit 3, lit 4]
+def stepS : Ast := nd .UNION [loc "s", nd .NT_DECLARATIVE_EXPR [loc "y", set1234, nd .EXISTS [loc "x", loc "s", nd .EQUAL [loc "y", nd .PLUS [loc "x", lit 1]]]]]
+def recFullEx : Ast := nd .NT_RECURSIVE_FULL [loc "s", nd .NT_ENUMERATION [lit 1], nd .LESSER [nd .CARD [loc "s"], lit 3], stepS]
+def recShortEx : Ast := nd .NT_RECURSIVE_SHORT [loc "s", nd .NT_ENUMERATION [lit 1], stepS]
+def impEx : Ast := nd .NT_IMPERATIVE_EXPR [nd .NT_TUPLE [loc "x", loc "y"], nd .ITERATE [loc "x", enum123], nd .ASSIGN [loc "y", nd .MULTIPLY [loc "x", loc "x"]], nd .GREATER [loc "y", lit 1]]
+def e5 : Ast := nd .AND [nd .AND [nd .EQUAL [recFullEx, enum123], nd .EQUAL [recShortEx, set1234]], nd .EQUAL [impEx, nd .NT_ENUMERATION [nd .NT_TUPLE [lit 2, lit 4], nd .NT_TUPLE [lit 3, lit 9]]]]
+
+abbrev env0 : Env := {}
+
+theorem enum_lits (env : Env) (G : TCtx) (lvl : Nat) (Γ : TCtx) (ns : List Int) (h : ns ≠ []) :
+    Frag env G lvl Γ (nd .NT_ENUMERATION (ns.map lit)) (.ty (.coll Z)) :=
+  Frag.enum _ _ _ _ (by simpa using h) (by
+    intro k hk
+    obtain ⟨n, _, rfl⟩ := List.mem_map.mp hk
+    exact .lit ..)
+
+theorem stepS_frag : Frag env0 [] 4 [("s", .coll Z)] stepS (.ty (.coll Z)) := by
+  refine .setOp _ _ _ (Or.inl rfl) (.loc _ "s" 0 0 (by decide) rfl rfl) ?_
+  refine .decl (τ := Z) _ _ _ "y" 0 0 (by decide) rfl rfl (by simp) (enum_lits env0 [] 4 _ [1, 2, 3, 4] (by simp)) ?_
+  refine .quant (τ := Z) _ _ _ "x" 0 0 (by decide) (Or.inr rfl) rfl rfl (by simp) (.loc _ "s" 0 0 (by decide) rfl rfl) ?_
+  exact .eq _ _ _ (Or.inl rfl) (.loc _ "y" 0 0 (by decide) rfl rfl)
+    (.arith _ _ _ (Or.inl rfl) (.loc _ "x" 0 0 (by decide) rfl rfl) (.lit ..))
+
+theorem recFullEx_frag : Frag env0 [] 4 [] recFullEx (.ty (.coll Z)) := by
+  refine .recFull _ _ _ "s" 0 0 (by decide) rfl rfl (by simp) (enum_lits env0 [] 4 _ [1] (by simp)) ?_ (stepS_frag)
+  exact .cmp _ _ _ (Or.inr (Or.inl rfl)) (.card _ _ _ (.loc _ "s" 0 0 (by decide) rfl rfl)) (.lit ..)
+
+theorem recShortEx_frag : Frag env0 [] 4 [] recShortEx (.ty (.coll Z)) :=
+  .recShort _ _ _ "s" 0 0 (by decide) rfl rfl (by simp) (enum_lits env0 [] 4 _ [1] (by simp)) (stepS_frag)
+
+def impBlocks : List Blk :=
+  [.iter "x" enum123 enum123 Z .none 0 0 0 0,
+   .asg "y" (nd .MULTIPLY [loc "x", loc "x"]) (nd .MULTIPLY [loc "x", loc "x"]) Z .none 0 0 0 0,
+   .guard (nd .GREATER [loc "y", lit 1]) (nd .GREATER [loc "y", lit 1])]
+
+theorem impEx_frag : Frag env0 [] 4 [] impEx (.ty (.coll (.tuple [Z, Z]))) := by
+  refine FragR.imp _ _ _ impBlocks (by decide) (by simp [impBlocks]) rfl ?_ ?_ ?_
+  · exact split_cons (P := fun pre b => b.side env0 [] (ctxAfter [] pre)) ⟨rfl, rfl, by simp⟩
+      (split_cons ⟨rfl, rfl, by simp⟩ (split_cons ⟨by decide, by decide, by decide, by decide⟩ split_nil))
+  · refine split_cons (P := fun pre b => FragR env0 [] 4 [] (ctxAfter [] pre) b.expr b.expr' b.ety)
+      (enum_lits env0 [] 4 _ [1, 2, 3] (by simp)) (split_cons ?_ (split_cons ?_ split_nil))
+    · exact .arith _ _ _ (Or.inr (Or.inr rfl)) (.loc _ "x" 0 0 (by decide) rfl rfl) (.loc _ "x" 0 0 (by decide) rfl rfl)
+    · exact .cmp _ _ _ (Or.inl rfl) (.loc _ "y" 0 0 (by decide) rfl rfl) (.lit ..)
+  · refine Frag.tuple _ _ _ [loc "x", loc "y"] [Z, Z] (by decide) rfl ?_
+    intro p hp
+    simp only [List.zip_cons_cons, List.zip_nil_right, List.mem_cons, List.not_mem_nil, or_false] at hp
+    rcases hp with rfl | rfl
+    · exact .loc _ "x" 0 0 (by decide) rfl rfl
+    · exact .loc _ "y" 0 0 (by decide) rfl rfl
+
+theorem e5_frag : Frag env0 [] 4 [] e5 .logic := by
+  refine .conn _ _ _ (Or.inl rfl) (.conn _ _ _ (Or.inl rfl) ?_ ?_) ?_
+  · exact .eq _ _ _ (Or.inl rfl) (recFullEx_frag) (enum_lits env0 [] 4 _ [1, 2, 3] (by simp))
+  · exact .eq _ _ _ (Or.inl rfl) (recShortEx_frag) (enum_lits env0 [] 4 _ [1, 2, 3, 4] (by simp))
+  · refine .eq (τ := .coll (.tuple [Z, Z])) _ _ _ (Or.inl rfl) (impEx_frag) ?_
+    refine Frag.enum _ _ _ _ (by simp) ?_
+    intro k hk
+    simp only [List.mem_cons, List.not_mem_nil, or_false] at hk
+    rcases hk with rfl | rfl <;>
+    · refine Frag.tuple _ _ _ _ [Z, Z] (by decide) rfl ?_
+      intro p hp
+      simp only [List.zip_cons_cons, List.zip_nil_right, List.mem_cons, List.not_mem_nil, or_false] at hp
+      rcases hp with rfl | rfl <;> exact .lit ..
+/-! ### stage 5: `∃a,b∈D{a∈{1,2} | 1=1} (a=1 & b=b) & ∀x,y,z∈{1,2,3} (x<y & y<z ⇒ x<z)` -/
+def domA : Ast := nd .NT_DECLARATIVE_EXPR [loc "a", enum12, nd .EQUAL [lit 1, lit 1]]
+def bodyAB : Ast := nd .AND [nd .EQUAL [loc "a", lit 1], nd .EQUAL [loc "b", loc "b"]]
+def enumAB : Ast := nd .EXISTS [nd .NT_ENUM_DECL [loc "a", loc "b"], domA, bodyAB]
+def bodyXYZ : Ast :=
+  nd .IMPLICATION [nd .AND [nd .LESSER [loc "x", loc "y"], nd .LESSER [loc "y", loc "z"]], nd .LESSER [loc "x", loc "z"]]
+def enumXYZ : Ast := nd .FORALL [nd .NT_ENUM_DECL [loc "x", loc "y", loc "z"], enum123, bodyXYZ]
+def e6 : Ast := nd .AND [enumAB, enumXYZ]
+/-- its normal form: nested quantifiers -/
+def e6n : Ast :=
+  nd .AND [nd .EXISTS [loc "a", domA, nd .EXISTS [loc "b", domA, bodyAB]],
+    nd .FORALL [loc "x", enum123, nd .FORALL [loc "y", enum123, nd .FORALL [loc "z", enum123, bodyXYZ]]]]
+
+theorem domA_frag : Frag env0 [] 5 [] domA (.ty (.coll Z)) :=
+  .decl (τ := Z) _ _ _ "a" 0 0 (by decide) rfl rfl (by simp) (enum12_frag ..) (.eq _ _ _ (Or.inl rfl) (.lit ..) (.lit ..))
+
+theorem e6_frag : FragR env0 [] 5 [] [] e6 e6n .logic := by
+  refine .conn _ _ _ (Or.inl rfl) ?_ ?_
+  · refine FragR.quantEnum (τ := Z) _ _ _ _ _ _ [("a", 0, 0), ("b", 0, 0)] (by decide) (Or.inr rfl) (by decide) (by decide)
+      (by intro q hq; simp at hq; rcases hq with rfl | rfl <;> exact ⟨rfl, rfl, by simp⟩) domA_frag ?_
+    exact .conn _ _ _ (Or.inl rfl) (.eq _ _ _ (Or.inl rfl) (.loc _ "a" 0 0 (by decide) rfl rfl) (.lit ..))
+      (.eq _ _ _ (Or.inl rfl) (.loc _ "b" 0 0 (by decide) rfl rfl) (.loc _ "b" 0 0 (by decide) rfl rfl))
+  · refine FragR.quantEnum (τ := Z) _ _ _ _ _ _ [("x", 0, 0), ("y", 0, 0), ("z", 0, 0)] (by decide) (Or.inl rfl) (by decide)
+      (by decide) (by intro q hq; simp at hq; rcases hq with rfl | rfl | rfl <;> exact ⟨rfl, rfl, by simp⟩)
+      (enum_lits env0 [] 5 _ [1, 2, 3] (by simp)) ?_
+    have lx : ∀ v, lookup v (declCtx Z [] [("x", 0, 0), ("y", 0, 0), ("z", 0, 0)]) = lookup v [("z", Z), ("y", Z), ("x", Z)] :=
+      fun _ => rfl
+    refine .conn _ _ _ (Or.inr (Or.inr (Or.inl rfl))) (.conn _ _ _ (Or.inl rfl) ?_ ?_) ?_
+    · exact .cmp _ _ _ (Or.inr (Or.inl rfl)) (.loc _ "x" 0 0 (by decide) rfl rfl) (.loc _ "y" 0 0 (by decide) rfl rfl)
+    · exact .cmp _ _ _ (Or.inr (Or.inl rfl)) (.loc _ "y" 0 0 (by decide) rfl rfl) (.loc _ "z" 0 0 (by decide) rfl rfl)
+    · exact .cmp _ _ _ (Or.inr (Or.inl rfl)) (.loc _ "x" 0 0 (by decide) rfl rfl) (.loc _ "z" 0 0 (by decide) rfl rfl)
+
 
 end CCVerif.Eval.Examples
